@@ -1,4 +1,6 @@
-"""C05 (rectangles) — attribute clause only: A1 in endorse_rect / endorse_rounded_rect the emitted
+"""C05 (rectangles) — attribute clause plus one necessary recognition clause: R1 four lines are
+accepted as a rectangle only if all eight end points of the two parallel pairs coincide with end
+points of the other pair (lines that merely touch, e.g. a ladder, are not a rectangle); A1 in endorse_rect / endorse_rounded_rect the emitted
 Rect spans min..max over *both* bound points of *all* fragments of the group, is unfilled, is dashed
 iff any fragment of the group is dashed (Fragment::is_broken of lines/rects), and a rounded rect
 takes its radius from an arc of the group; the endorser's result is the only source of the rect
@@ -27,6 +29,76 @@ def fold_pushes_both_bounds(prog, cl):
             fields.add(v[2][-1])
     rets = [strip(r) for r in ex.returns()]
     return fields == {"0", "1"} and len(pushes) == 2
+
+
+def corners_rule(run):
+    """R1 [N]: four lines are accepted as a rectangle only if they meet at their end points: the accepting
+    return of is_rect must be (or be guarded by) a test in which each of the 8 end points of the two
+    parallel pairs is compared with the end points of the lines of the other pair.  Lines that only touch
+    somewhere along their length (a ladder's rails and rungs) must not pass."""
+    prog = run.prog
+    ir = [q for q in prog.bodies if q.endswith("cell_buffer::endorse::is_rect")]
+    if len(ir) != 1:
+        run.missing("C05.R1", "endorse::is_rect")
+        return
+    ir = ir[0]
+    b = prog.bodies[ir]
+    rets = [strip(r) for r in Expr(prog, ir).returns()]
+    accepting = [r for r in rets if not is_const(r, 0)]
+    tested = set()
+    fns = []
+    for r in accepting:
+        cands = []
+        mentions(r, lambda z: z[0] == "call" and z[1] in prog.bodies and z[1].startswith("svgbob::") and cands.append(z) and False)
+        # conditions the accepting return is control-dependent on count as well
+        for c in cands:
+            f = c[1]
+            if "line::Line::" in f or "Fragment::" in f:
+                continue
+            fns.append(f)
+    # guards of the accepting return blocks
+    for blk in b["blocks"]:
+        for st in blk["stmts"]:
+            pass
+    for f in set(fns):
+        ex = Expr(prog, f)
+        fb = prog.bodies[f]
+        for bid, t in prog.calls(f):
+            if not re.search(r"Iterator>::all$|Iterator::all$", Program.callee_name(t)):
+                continue
+            src = ex.operand(t["args"][0])
+            cl, caps = closure_of(strip(ex.operand(t["args"][1])))
+            if cl not in prog.bodies:
+                continue
+            he = [tt for _, tt in prog.calls(cl) if Program.callee_name(tt).endswith("line::Line::has_endpoint")]
+            cex = Expr(prog, cl)
+            lines_tested = set()
+            for tt in he:
+                recv = strip(cex.operand(tt["args"][0]))
+                pt = strip(cex.operand(tt["args"][1]))
+                if recv[0] == "param" and recv[1] == 1 and pt[0] == "param" and pt[1] == 2:
+                    idx = [x for x in recv[2] if x.isdigit()]
+                    capv = strip(caps.get(idx[0], ("unknown",))) if idx else ("unknown",)
+                    if capv[0] == "param":
+                        lines_tested.add(capv[1])
+            pts = []
+            mentions(src, lambda z: z[0] == "agg" and z[1] == "array" and pts.append(z) and False)
+            if pts and len(lines_tested) == 2:
+                for _, e in pts[0][3]:
+                    e = strip(e)
+                    if e[0] == "param" and e[2] and e[2][-1] in ("start", "end") and e[1] not in lines_tested:
+                        tested.add((e[1], e[2][-1], tuple(sorted(lines_tested))))
+    pairs = {}
+    for line, end, others in tested:
+        pairs.setdefault(others, set()).add((line, end))
+    complete = len(tested) == 8 and len(pairs) == 2 and all(len(v) == 4 for v in pairs.values())
+    if complete and accepting:
+        run.ok("C05.R1", "is_rect accepts four lines only when all 8 end points meet end points of the other pair", where(b),
+               "corner test in %s" % ", ".join(sorted(short(f) for f in set(fns))))
+    else:
+        run.bad("C05.R1", "rect-accepts-touching-lines/is_rect", where(b),
+                "is_rect accepts two parallel pairs of lines that merely touch (is_touching_aabb_perpendicular) without requiring that the lines meet at their end points "
+                "(%d of 8 end-point comparisons found): the rails and rungs of a ladder are turned into one rectangle" % len(tested))
 
 
 def run(run):
@@ -103,6 +175,7 @@ def run(run):
                 run.ok("C05.A1", "rounded rect radius = radius of an arc of the group", where(b))
             else:
                 run.bad("C05.A1", "rect-radius", where(b), "the corner radius is `%s` (from an arc of the group: %s)" % (expr_str(r)[:100], okq))
+    corners_rule(run)
     if fib:
         rets = [strip(r) for r in Expr(prog, fib).returns()]
         calls = sorted(r[1].split("::")[-2] for r in rets if r[0] == "call")
